@@ -86,6 +86,14 @@ CHECKS["C20"] = dict(
     note="'highlighted = plain + dots 7-8' is not demanded. Position bound = plain braille length + 8 cells. One known finding (non-3-byte characters in Swedish braille) is listed in known_findings.json.",
 )
 
+CHECKS["C13"] = dict(
+    category="model_checking",
+    technique="TLA+ model of the per-engine start/end tag tables, command nesting and pause merging (TTS.tla) model-checked by TLC; real speech of suite expressions under seeded engine/rate/pitch/volume/pause/capital/bookmark combinations tokenised and judged by the same pushdown automaton in TLC (Trace_TTS.tla)",
+    text="Design: for every command x engine and every nesting of <= 2 commands around words and pauses the rendered token sequence is balanced, uses only the engine's vocabulary and keeps the words; the SAPI5 end tags of the pinned commit are refuted. Implementation: speech and overview of suite expressions (and expressions that speak as nothing) under SSML and SAPI5 are lexed into tags and words; TLC checks vocabulary, nesting/closing, attribute syntax (lexer flag), character equality with the TTS=None speech and bookmark names against the ids of the returned MathML. Configurations and expressions are sampled.",
+    design_ref="DESIGN.md section 5 C13",
+    note="The lexer (tag grammar) is the trusted projection. Characters, not words, are compared; pause punctuation is removed on both sides. One known finding (expression text not escaped) is listed.",
+)
+
 NOT_YET = {}
 
 
